@@ -23,16 +23,25 @@ func vStubSlideNotes(r *Reader, index int, slide *Slide)   {}
 //symgo:redirect (*github.com/tsawler/tabula/pptx.Reader).parseSlide vStubParseSlide
 //symgo:redirect (*github.com/tsawler/tabula/pptx.Reader).parseSlideRelationships vStubSlideRels
 //symgo:redirect (*github.com/tsawler/tabula/pptx.Reader).parseSlideNotes vStubSlideNotes
-//symgo:desc 3 slide parts whose file numbers are symbolic digits 1..9 (distinct), archive order and declared order (sldIdLst through presentation relationships) are independent enumerated permutations; optionally one of the three parts is not listed (a decoy): Slide(i) is the i-th listed part, count = number of listed parts; slide XML parsing and zip access are cut (harness-built zip.Reader and stub parseSlide recording the part name)
+//symgo:desc 3 slide parts whose file numbers are a symbolic digit 1..9, optionally prefixed with 1 (11..19; all distinct), so that numeric and lexicographic order of the part names differ, archive order and declared order (sldIdLst through presentation relationships) are independent enumerated permutations; optionally one of the three parts is not listed (a decoy): Slide(i) is the i-th listed part, count = number of listed parts; slide XML parsing and zip access are cut (harness-built zip.Reader and stub parseSlide recording the part name)
 func H_C18_pptx_slide_order() {
 	names := make([]string, 3)
-	var ds [3]byte
+	var ds [3]string
+	var dd [3]byte
+	var two [3]int
 	for i := range names {
-		ds[i] = vAnyByteOf("123456789")
+		dd[i] = vAnyByteOf("123456789")
+		two[i] = vAnyIntIn(0, 1) // file number 1..9 or 11..19: numeric and lexicographic order of the names differ
 		for j := 0; j < i; j++ {
-			vAssume(ds[j] != ds[i])
+			if two[j] == two[i] {
+				vAssume(dd[j] != dd[i])
+			}
 		}
-		names[i] = "ppt/slides/slide" + string([]byte{ds[i]}) + ".xml"
+		ds[i] = string([]byte{dd[i]})
+		if two[i] == 1 {
+			ds[i] = "1" + ds[i]
+		}
+		names[i] = "ppt/slides/slide" + ds[i] + ".xml"
 	}
 	perm := func() []int {
 		p := []int{0, 1, 2}
@@ -51,7 +60,7 @@ func H_C18_pptx_slide_order() {
 	zr.File = append(zr.File, &zip.File{FileHeader: zip.FileHeader{Name: "ppt/presentation.xml"}})
 	for _, k := range archive {
 		zr.File = append(zr.File, &zip.File{FileHeader: zip.FileHeader{Name: names[k]}})
-		zr.File = append(zr.File, &zip.File{FileHeader: zip.FileHeader{Name: "ppt/slides/_rels/slide" + string([]byte{ds[k]}) + ".xml.rels"}})
+		zr.File = append(zr.File, &zip.File{FileHeader: zip.FileHeader{Name: "ppt/slides/_rels/slide" + ds[k] + ".xml.rels"}})
 	}
 	r := &Reader{zipReader: zr, slideRels: map[int]*relationshipsXML{}}
 	r.presentation = &presentationXML{SlideIdList: &slideIdListXML{}}
@@ -60,7 +69,7 @@ func H_C18_pptx_slide_order() {
 		k := declared[i]
 		rid := "rId" + string(rune('1'+k))
 		r.presentation.SlideIdList.SlideId = append(r.presentation.SlideIdList.SlideId, slideIdXML{ID: string(rune('1' + i)), RID: rid})
-		r.presRels.Relationship = append(r.presRels.Relationship, relationshipXML{ID: rid, Target: "slides/slide" + string([]byte{ds[k]}) + ".xml"})
+		r.presRels.Relationship = append(r.presRels.Relationship, relationshipXML{ID: rid, Target: "slides/slide" + ds[k] + ".xml"})
 	}
 	err := r.parseSlides()
 	vAssert("no-error", err == nil)
